@@ -140,9 +140,15 @@ func (V *Verifier) runProperty(spec *propSpec) *checkResult {
 	V.discharge(obls)
 	if os.Getenv("BXV_TIMING") != "" {
 		fmt.Fprintf(os.Stderr, "discharge: %.1fs\n", time.Since(t1).Seconds())
-		sort.Slice(obls, func(i, j int) bool { return obls[i].Res.Secs > obls[j].Res.Secs })
-		for i := 0; i < 8 && i < len(obls); i++ {
-			fmt.Fprintf(os.Stderr, "  %.2fs (gen %.2fs) %s %s\n", obls[i].Res.Secs, obls[i].GenSecs, obls[i].Res.Verdict, obls[i].Name)
+		var real []*Oblig
+		for _, o := range obls {
+			if !o.ExpectSat {
+				real = append(real, o)
+			}
+		}
+		sort.Slice(real, func(i, j int) bool { return real[i].Res.Secs > real[j].Res.Secs })
+		for i := 0; i < 8 && i < len(real); i++ {
+			fmt.Fprintf(os.Stderr, "  %.2fs (gen %.2fs) %s %s %s\n", real[i].Res.Secs, real[i].GenSecs, real[i].Res.Verdict, real[i].Res.Solver, real[i].Name)
 		}
 	}
 	if spec.BatteryIsCheck {
